@@ -14,8 +14,8 @@
 #include <sys/types.h>
 #include <sys/wait.h>
 
-#define H_MAXW 64
-#define H_MAXL 4096
+#define H_MAXW 1024
+#define H_MAXL 65536
 
 struct h_line { int nw; char * w[H_MAXW]; };
 struct h_case {
